@@ -16,6 +16,11 @@ EDGE = [('edge:only-function-definitions', 'function f(a) -> a + 1; function g()
          'let o = object begin function m() -> 1; function n() -> 1 end; let p = object begin function m() -> 1 end; print("1\\n"); print("2\\n")'),
         ('edge:objects-with-the-same-fields-in-another-order', 'let p = object begin let x = 1; let y = 2 end; let q = object begin let y = 3; let x = 4 end; let r = object begin let c = 5; let a = 6; let b = 7 end; '
          'let s = object begin let a = 8; let b = 9; let c = 10 end; let t = object begin let b = p.x; let a = p.y; let c = q end; print("~ ~ ~ ~\\n", p.x, p.y, q.x, q.y); print("~ ~ ~ ~ ~\\n", r.a, r.c, s.a, s.c, t.a); print("~ ~\\n", t, r)'),
+        ('edge:method-named-print', 'let o = object begin function print(x) -> x + 1; function get(i) -> i; function set(i, v) -> v end; print("~ ~ ~\\n", o.print(1), o[2], o[3] <- 4)'),
+        ('edge:blank-program', ' \n\t\n'),
+        ('edge:this-is-an-ordinary-name', 'function pick(other, this) -> this; print("~\\n", pick(1, 2)); let o = object begin let v = 1; function m() -> begin let r = this.v; begin let this = 20; r <- r + this end; r + this.v end; '
+         'function n(k) -> begin let this = k; this + 1 end; function p() -> begin this <- 9; this end end; print("~ ~ ~\\n", o.m(), o.n(5), o.p()); '
+         'function f(this) -> begin begin let this = 7; print("~\\n", this) end; this end; print("~\\n", f(3)); let this = 4; function g() -> this + 1; print("~ ~\\n", this, g())'),
         ('edge:field-and-method-of-one-name', 'let o = object begin let value = 42; function value() -> this.value; function m() -> 1; let m = 2 end; print("~ ~ ~ ~ ~\\n", o.value, o.value(), o.m, o.m(), o)')]
 
 
